@@ -225,8 +225,22 @@ impl DriverSim {
         }
     }
 
+    /// a client driver on a runtime whose clock is paused: `tokio::time::sleep` inside the code under
+    /// test (retry back-off) only returns when the harness advances the clock
+    pub fn new_client_paused(keypair: Keypair) -> DriverSim {
+        let rt = tokio::runtime::Builder::new_current_thread()
+            .enable_all()
+            .start_paused(true)
+            .build()
+            .expect("runtime");
+        Self::new_client_on(rt, keypair)
+    }
+
     pub fn new_client(keypair: Keypair) -> DriverSim {
-        let rt = new_runtime();
+        Self::new_client_on(new_runtime(), keypair)
+    }
+
+    fn new_client_on(rt: Runtime, keypair: Keypair) -> DriverSim {
         let (net, events, driver) = rt.block_on(async {
             NetworkBuilder::new(keypair.clone(), true)
                 .build_client()
